@@ -218,6 +218,12 @@ def convert_case(case, fail):
         i = bpauli.bvector_to_int(w8)
         if i != int(''.join(str(int(b)) for b in want), 2):
             fail('bvector_to_int', s)
+        for dt in (np.int64, np.uint64, np.int32, np.uint):
+            if bpauli.bvector_to_int(want.astype(dt)) != i:
+                fail('bvector_to_int_dtype', f'{s} as {np.dtype(dt).name}')
+                break
+        if bpauli.bvector_to_int(np.asarray(v1)) != i:
+            fail('bvector_to_int_of_converter_output', s)
         if not np.array_equal(bpauli.int_to_bvector(i, n), want):
             fail('int_to_bvector', s)
         ints = bpauli.bvectors_to_ints([w8, w8[::-1].copy()])
@@ -394,7 +400,10 @@ def stack_cases(draw):
 
 @st.composite
 def convert_cases(draw):
-    s = draw(st.text(alphabet='IXYZ', min_size=1, max_size=40))
+    s = draw(st.one_of(st.text(alphabet='IXYZ', min_size=1, max_size=40),
+                       st.text(alphabet='IXYZ', min_size=41, max_size=330),
+                       st.integers(1, 330).map(lambda k: 'Y' * k),
+                       st.integers(1, 330).map(lambda k: 'I' * (k - 1) + 'Z')))
     return {'kind': 'convert', 'pauli': s, 'rseed': draw(st.integers(0, 2**30)),
             'rank_shape': [draw(st.integers(1, 12)), draw(st.integers(1, 70))],
             'rank_density': draw(st.sampled_from([0.1, 0.5, 0.9]))}
